@@ -689,6 +689,10 @@ def check_channel(ctx, rep, rule="R05.4"):
             self.generic_visit(node)
             if A.src(node) == "len(self.FLUSHER)":
                 return ast.Constant(value=fl)
+            if isinstance(node.func, ast.Name) and node.func.id == "tuple" and len(node.args) == 1 and not node.keywords and \
+                    isinstance(node.args[0], ast.Call) and isinstance(node.args[0].func, ast.Attribute) and \
+                    node.args[0].func.attr == "unpack":
+                return node.args[0]          # Struct.unpack already returns a tuple
             return node
 
     def canon(e):
